@@ -34,8 +34,8 @@ ALL = [(n, c, g, o) for o in ('O0', 'O2', 'O3') for n in (0, 1) for c in (0, 1) 
 NREG = 10
 CTORS = ['ni', 'nf', 'ns', 'np', 'na', 'na', 'na', 'nl', 'nl', 'nt', 'nt', 'nr', 'nr', 'nu', 'nR', 'ng']
 MUT = ['pu', 'pu', 'ap', 'pa', 'pa', 'po', 'pt', 'se', 'se', 'rm', 'rm', 'so', 'rs', 'cl', 'cc', 'as', 'sw', 'cp']
-OBS = ['ge', 'ge', 'me', 'ln', 'ha', 'it', 'it', 'ib', 'sl', 'rv', 'zp', 'en', 'fi', 'ma', 'ty', 'sh', 'de', 'ci', 'cm']
-FREE = ['tc', 'tc', 'tn', 'rg', 'fm', 'fm', 'fm', 'sn', 'ca', 'gc', 'gc', 'D', 'D', 'dr', 'dr', 'dl', 'dl', 'th', 'mx', 'fl']
+OBS = ['ge', 'ge', 'me', 'ln', 'ha', 'it', 'it', 'ib', 'sl', 'rv', 'zp', 'en', 'fi', 'ma', 'ty', 'sh', 'de', 'ci', 'cm', 'lk', 'iq']
+FREE = ['tc', 'tc', 'tn', 'rg', 'fm', 'fm', 'fm', 'sn', 'ca', 'gc', 'gc', 'D', 'D', 'dr', 'dr', 'dl', 'dl', 'th', 'mx', 'fl', 'hp', 'tf', 'tf', 'rw']
 
 
 def rint(rng):
@@ -62,10 +62,10 @@ def gen_ctor(rng, kinds, r=None):
         a[1] = rng.choice([0, 1, 2, 3, 5, 8, 13, 23, rng.randrange(0, 24)])
         kinds[r] = ('Array:' if op == 'na' else 'List:') + TCODE[t]
     elif op in ('nt', 'nr'):
-        k = rng.randrange(2); t = pick_t(rng)
-        a[0] = k + 2 * rng.randrange(0, 3); a[1] = t + 4 * rng.randrange(0, 3)
+        k = rng.choices([0, 1, 2], [4, 4, 2])[0]; t = pick_t(rng)
+        a[0] = k + 3 * rng.randrange(0, 3); a[1] = t + 4 * rng.randrange(0, 3)
         a[2] = rng.choice([0, 1, 2, 4, 5, 6, 11, 12, 23, rng.randrange(0, 24)])
-        kinds[r] = ('Table:' if op == 'nt' else 'Tree:') + ('String' if k else 'Int') + ':' + TCODE[t]
+        kinds[r] = ('Table:' if op == 'nt' else 'Tree:') + ('Int', 'String', 'Pt')[k] + ':' + TCODE[t]
     elif op == 'nR':
         src = [q for q, kd in kinds.items() if kd != 'Ref' and q != r]
         if not src:
@@ -76,7 +76,7 @@ def gen_ctor(rng, kinds, r=None):
     return '%s:%d,%d,%d,%d,%d' % (op, r, a[0], a[1], a[2], a[3])
 
 
-SCALAR_OK = ('as', 'sw', 'cp', 'cm', 'ha', 'sh', 'ci', 'ty')
+SCALAR_OK = ('as', 'sw', 'cp', 'cm', 'ha', 'sh', 'ci', 'ty', 'lk', 'iq')
 
 
 def aim(rng, kinds, op, reg, focus):
@@ -276,6 +276,7 @@ CORPUS_WL = [
     'tc:0,2,5,1 tn:1,2,3 rg:1,4,2 fm:0,12,-7 fm:2,5,9 fm:4,3,3 sn:5,17,33 ca:1,2,3 gc D nr:3,0,3,5,1 it:3 ib:3 nu:4,5,2 '
     'it:4 ib:4 sl:0,1,1 zp:0,1 en:1 fi:0,1 ma:0 ty:0 ty:2 ha:0 ha:2 cp:0,5 cm:0,5 cc:0,5 D dl:0 gc D',
     'wl|th:5,17,3 th:0,39,4 mx:1 fl:3,17,5 fl:0,300,99999 th:1,1,1 gc D',
+    'wl|nt:0,2,3,9,4 it:0 ge:0,3 rm:0,1 nr:1,5,0,12,9 it:1 ib:1 hp:0 hp:3 hp:5 hp:13 na:2,0,7,1 tf:2,3 tf:2,9 tf:0,1 rw:12,5,3 ni:3,-77 lk:3 iq:3 iq:0 iq:2 gc D',
     'wl|na:0,3,20,4 so:0,1 it:0 so:0,2 it:0 po:0 pt:0,-3 pa:0,9,-1 rs:0,3 it:0 cl:0 po:0 pu:0,1 D',
     'wl|nt:1,0,2,23,7 nt:2,1,3,23,1 rs:1,30 it:1 cl:1 se:1,4,4 it:1 cp:2,3 cm:2,3 ha:2 ha:3 gc nr:4,1,1,20,2 it:4 ib:4 rm:4,7 rm:4,8 D',
 ]
@@ -291,12 +292,12 @@ def run(ctx):
     quick = ctx.tier == 'quick'
     cfgs = ALL
     ctx.cov['rule'] = (
-        'workload stream: seeded register-machine programs (3-7 constructors, then %s operations drawn from 63 kinds: '
+        'workload stream: seeded register-machine programs (3-7 constructors, then %s operations drawn from 69 kinds: '
         'Array/List/Table/Tree/Tuple/String/Int/Float/user-type construction, push/push_at/pop/pop_at/get/set/mem/rem/'
         'sort/sort_by/resize/concat/append/assign/copy/swap/cmp/hash, forward and backward iteration, slice/reverse/zip/'
         'enumerate/filter/map/range views, print_to formatting of every conversion class, scan_from round trip, Function '
         'call, try/throw/catch with propagation through frames and through a non-matching inner handler, worker threads '
-        '(own collector and exception context), Mutex, File write/reopen/read, del/drop, forced collections) interpreted '
+        '(own collector and exception context), Mutex, File write/reopen/read, Help documentation, show/look, raw and root allocation, instance queries, del/drop, forced collections) interpreted '
         'by harness/config_workload.c, which maps every argument into the contract of the call it makes; the library is '
         'built in all 24 configurations of {checks, CELLO_NDEBUG} x {cache, CELLO_CACHE=0} x {GC, CELLO_NGC} x {O0,O2,O3}; '
         '%s; transcripts are compared byte for byte. A program is non-trivial when at least 8 operations had an effect '
